@@ -11,7 +11,7 @@ pub static DEF: PropDef = PropDef {
     id: "C11",
     level: "exploration",
     rule: "cases: files F from the container generator (with and without embedded streams, intact and damaged) x \
-capacity in {0, 1, |E|-1, |E|, |E|+1, |E|+k, 64 MiB} where E = expand_zlib_chunks(F); and non-frames: empty input, 1-3 \
+capacity in {0, 1, |E|-1, |E|, |E|+1, |E|+k, 64 MiB, and the offsets of the last 6 chunk boundaries of E (+1 / -1)} where E = expand_zlib_chunks(F); and non-frames: empty input, 1-3 \
 bytes, random bytes that start with neither a zstd nor a skippable-frame magic, strict prefixes of a valid frame, a \
 valid frame followed by trailing non-frame bytes. Oracle: capacity >= |E| => decompress_zstd(compress_zstd(F), capacity) \
 == Ok(F); capacity < |E| => Err; non-frame => Err; never a panic; never Ok(x) with x != F for an untouched frame. \
@@ -50,6 +50,18 @@ pub fn check_file(f: &[u8], k: usize, ctx: &mut Ctx) -> Result<(), Failure> {
     };
     let n = e.len();
     let mut caps: Vec<usize> = vec![0, 1, n.saturating_sub(1), n, n + 1, n + k.max(2), 64 << 20];
+    // capacities that cut the expanded form exactly at (and next to) a chunk boundary: a prefix
+    // that ends on a boundary is itself a well-formed shorter container
+    if let Ok(chunks) = crate::model_container::parse_container(&e) {
+        for c in chunks.iter().rev().take(6) {
+            for x in [c.tag_off, c.tag_off + 1, c.end.saturating_sub(1)] {
+                if x < n {
+                    caps.push(x);
+                }
+            }
+        }
+    }
+    caps.sort();
     caps.dedup();
     for cap in caps {
         match dz(&c, cap) {
